@@ -8,7 +8,8 @@
 (*           fallback, static, decodable, encodable, repeating, fields]    *)
 (* field:   [o, id, dbid, name, unit, qty, type, kind, pk, off, len,       *)
 (*           signed, twos, match, lookup, excessK, hasRange, lo, hi,       *)
-(*           sentinelInRange, resNum, resDen, zeroOk, lenField]            *)
+(*           sentinelInRange, resNum, resDen, zeroOk, lenField,            *)
+(*           indirect, indOff, indLen]                                     *)
 (*   lo/hi are tick bounds ceil((RangeMin-Offset)/Res), floor((RangeMax-   *)
 (*   Offset)/Res) as sign-magnitude bit integers.                          *)
 (***************************************************************************)
@@ -19,6 +20,7 @@ Defs == Db.defs
 NDefs == Len(Defs)
 Lookups == Db.lookups
 BitLookups == Db.bitlookups
+IndirectLookups == Db.indirect      \* table name -> ("<companion code>_<own code>" -> text)
 
 HasId(id) == id \in DOMAIN Db.byId
 DefById(id) == Defs[Db.byId[id]]
